@@ -11,6 +11,8 @@ type FullScanPlan struct {
 	Storage Storage
 	Filter  *FilterExec
 	iter    Cursor
+	// finished is set when the scan reached the end of its region
+	finished bool
 }
 
 func NewFullScanPlan(s Storage, f *FilterExec) Plan {
@@ -29,6 +31,7 @@ func (p *FullScanPlan) Explain() []string {
 }
 
 func (p *FullScanPlan) Init() (err error) {
+	p.finished = false
 	p.iter, err = p.Storage.Cursor()
 	if err != nil {
 		return err
@@ -65,6 +68,10 @@ func (p *FullScanPlan) Batch(ctx *ExecuteCtx) ([]KVPair, error) {
 		chooseIdxes = make([]int, 0, 2*PlanBatchSize)
 		bidx        = 0
 	)
+	if p.finished {
+		// The end of the region is already reached, do not read further
+		return nil, nil
+	}
 	for !finish {
 		filterBatch = filterBatch[:0]
 		for i := 0; i < PlanBatchSize; i++ {
@@ -74,6 +81,7 @@ func (p *FullScanPlan) Batch(ctx *ExecuteCtx) ([]KVPair, error) {
 			}
 			if key == nil {
 				finish = true
+				p.finished = true
 				break
 			}
 			filterBatch = append(filterBatch, NewKVP(key, val))
@@ -105,6 +113,8 @@ type PrefixScanPlan struct {
 	Filter  *FilterExec
 	Prefix  string
 	iter    Cursor
+	// finished is set when the scan reached the end of its region
+	finished bool
 }
 
 func NewPrefixScanPlan(s Storage, f *FilterExec, p string) Plan {
@@ -116,6 +126,7 @@ func NewPrefixScanPlan(s Storage, f *FilterExec, p string) Plan {
 }
 
 func (p *PrefixScanPlan) Init() (err error) {
+	p.finished = false
 	p.iter, err = p.Storage.Cursor()
 	if err != nil {
 		return err
@@ -161,6 +172,10 @@ func (p *PrefixScanPlan) Batch(ctx *ExecuteCtx) ([]KVPair, error) {
 		chooseIdxes = make([]int, 0, 2*PlanBatchSize)
 		bidx        = 0
 	)
+	if p.finished {
+		// The end of the region is already reached, do not read further
+		return nil, nil
+	}
 	for !finish {
 		filterBatch = filterBatch[:0]
 		for i := 0; i < PlanBatchSize; i++ {
@@ -170,11 +185,13 @@ func (p *PrefixScanPlan) Batch(ctx *ExecuteCtx) ([]KVPair, error) {
 			}
 			if key == nil {
 				finish = true
+				p.finished = true
 				break
 			}
 			// Key not have the prefix
 			if !bytes.HasPrefix(key, pb) {
 				finish = true
+				p.finished = true
 				break
 			}
 			filterBatch = append(filterBatch, NewKVP(key, val))
@@ -215,6 +232,8 @@ type RangeScanPlan struct {
 	Start   []byte
 	End     []byte
 	iter    Cursor
+	// finished is set when the scan reached the end of its region
+	finished bool
 }
 
 func NewRangeScanPlan(s Storage, f *FilterExec, start []byte, end []byte) Plan {
@@ -227,6 +246,7 @@ func NewRangeScanPlan(s Storage, f *FilterExec, start []byte, end []byte) Plan {
 }
 
 func (p *RangeScanPlan) Init() (err error) {
+	p.finished = false
 	p.iter, err = p.Storage.Cursor()
 	if err != nil {
 		return err
@@ -276,6 +296,10 @@ func (p *RangeScanPlan) Batch(ctx *ExecuteCtx) ([]KVPair, error) {
 		chooseIdxes = make([]int, 0, 2*PlanBatchSize)
 		bidx        = 0
 	)
+	if p.finished {
+		// The end of the region is already reached, do not read further
+		return nil, nil
+	}
 	for !finish {
 		filterBatch = filterBatch[:0]
 		for i := 0; i < PlanBatchSize; i++ {
@@ -285,11 +309,13 @@ func (p *RangeScanPlan) Batch(ctx *ExecuteCtx) ([]KVPair, error) {
 			}
 			if key == nil {
 				finish = true
+				p.finished = true
 				break
 			}
 			// Key is greater than End
 			if p.End != nil && bytes.Compare(key, p.End) > 0 {
 				finish = true
+				p.finished = true
 				break
 			}
 			filterBatch = append(filterBatch, NewKVP(key, val))
